@@ -946,7 +946,10 @@ fn reset_knob(l: &mut Layout, k: usize) {
             l.pct_xf_omit_general = 0;
             l.pct_row_style = 0;
         }
-        13 => l.rel_decl = xlsxw::RelDecl::Workbook,
+        13 => {
+            l.rel_decl = xlsxw::RelDecl::Workbook;
+            l.pct_rels_noise = 0;
+        }
         _ => {
             l.pct_styles_noise = 0;
             l.pct_attr_shuffle = 0;
@@ -981,10 +984,89 @@ fn make_case(seed: u64, mods: &Mods) -> (XlsxBook, Layout) {
     (book, layout)
 }
 
+/// container glue (Model/XlsxContainer.lean): entry names + events of workbook.xml and of its .rels part ↦ the sheet
+/// table and the entry opened per sheet. impl: `sheets_metadata()` (names, kinds, visibility) and the open error class;
+/// spec: the entry the writer put sheet i into (that the impl reads sheet i's cells from it is the file-level oracle).
+fn container_stage(built: &xlsxw::Built, book: &XlsxBook, drv: &mut Driver) -> Vec<Fail> {
+    let mut fails = vec![];
+    let lower = |s: &str| s.to_ascii_lowercase();
+    let names: Vec<&String> = built.parts.iter().map(|p| &p.0).collect();
+    let find = |canon: &str| names.iter().find(|n| lower(n) == canon).map(|n| n.to_string());
+    let (Some(wname), Some(rname)) = (find("xl/workbook.xml"), find("xl/_rels/workbook.xml.rels")) else {
+        return fails;
+    };
+    let mut req = format!("container {}", names.len());
+    for n in &names {
+        req.push(' ');
+        req.push_str(&hex(n.as_bytes()));
+    }
+    req.push_str(&format!(" W={} {} R={} {}", hex(wname.as_bytes()), xlsxw::ev_wire(&built.workbook_events), hex(rname.as_bytes()), xlsxw::ev_wire(&built.rels_events)));
+    let reply = drv.ask(&req);
+    // impl
+    let impl_txt = match guarded(|| Xlsx::new(Cursor::new(built.bytes.clone()))) {
+        Err(_) => "panic".to_string(),
+        Ok(Err(e)) => format!("err:{}", err_class(&e)),
+        Ok(Ok(wb)) => {
+            let rows: Vec<String> = wb
+                .sheets_metadata()
+                .iter()
+                .map(|s| format!("{}:{:?}:{:?}", hex(s.name.as_bytes()), s.typ, s.visible))
+                .collect();
+            format!("ok {}", if rows.is_empty() { "-".to_string() } else { rows.join(";") })
+        }
+    };
+    // model, reduced to what the impl shows
+    let model_txt = match reply.strip_prefix("ok ") {
+        Some(body) if body != "-" => {
+            let rows: Vec<String> = body.split(';').map(|r| r.split(':').take(3).collect::<Vec<_>>().join(":")).collect();
+            format!("ok {}", rows.join(";"))
+        }
+        _ => reply.clone(),
+    };
+    if impl_txt != model_txt {
+        fails.push(Fail { kind: "impl_vs_model", sig: "container-table".into(), imp: impl_txt.clone(), model: reply.clone(), expect: String::new() });
+    }
+    // spec: sheet i (name, kind, state) resolves to the entry that holds sheet i
+    let want: Vec<String> = book
+        .sheets
+        .iter()
+        .enumerate()
+        .map(|(i, sh)| {
+            let kind = match sh.folder.as_str() {
+                "chartsheets" => "ChartSheet",
+                "dialogsheets" => "DialogSheet",
+                "macrosheets" => "MacroSheet",
+                _ => "WorkSheet",
+            };
+            let vis = match sh.state {
+                xlsxw::SheetState::Visible => "Visible",
+                xlsxw::SheetState::Hidden => "Hidden",
+                xlsxw::SheetState::VeryHidden => "VeryHidden",
+            };
+            let entry = find(&built.sheet_paths[i]).unwrap_or_default();
+            format!("{}:{}:{}:{}:{}", hex(sh.name.as_bytes()), kind, vis, hex(built.sheet_paths[i].as_bytes()), hex(entry.as_bytes()))
+        })
+        .collect();
+    let want_txt = format!("ok {}", if want.is_empty() { "-".to_string() } else { want.join(";") });
+    if reply != want_txt {
+        // model and implementation failing alike on a legal package: the property is violated by both
+        let both_fail = reply.starts_with("err:") && impl_txt == reply;
+        fails.push(Fail {
+            kind: if both_fail { "impl_vs_spec" } else { "model_vs_spec" },
+            sig: if both_fail { format!("container:{}", &reply[4..]) } else { "container-resolution".into() },
+            imp: impl_txt,
+            model: reply,
+            expect: want_txt,
+        });
+    }
+    fails
+}
+
 fn run_case(seed: u64, mods: &Mods, drv: &mut Driver, rep: Option<&mut Report>) -> (Vec<Fail>, XlsxBook, Layout) {
     let (book, layout) = make_case(seed, mods);
     let built = book.build(&layout);
-    let fails = check_file(&built.bytes, &book, &built.sheet_events, &built.sst_events, &built.strings, drv, rep);
+    let mut fails = check_file(&built.bytes, &book, &built.sheet_events, &built.sst_events, &built.strings, drv, rep);
+    fails.extend(container_stage(&built, &book, drv));
     (fails, book, layout)
 }
 
@@ -1066,6 +1148,7 @@ fn file_case(seed: u64, rep: &mut Report, drv: &mut Driver) {
     rep.count(&format!("knob:styles-noise:{}", layout.pct_styles_noise));
     rep.count(&format!("knob:row-style:{}", layout.pct_row_style));
     rep.count(&format!("knob:rel-decl:{:?}", layout.rel_decl));
+    rep.count(&format!("knob:rels-noise:{}", layout.pct_rels_noise));
     for sh in &book.sheets {
         for c in sh.cells.values() {
             rep.count(match c.value {
@@ -1191,9 +1274,32 @@ fn corpus_case(name: &str) -> Option<(XlsxBook, Layout)> {
             l.rel_decl = xlsxw::RelDecl::Sheet;
             l.rel_prefix = "q".into();
         }
+        // a relationships prefix that is itself called `id`, declared on the <sheet>: `xmlns:id` is a prefixed attribute
+        // whose local name is `id`
+        "rel-prefix-named-id" => {
+            sh.set(0, 0, XCell::num("1"));
+            l.rel_decl = xlsxw::RelDecl::Sheet;
+            l.rel_prefix = "id".into();
+        }
         "rel-decl-split" => {
             sh.set(0, 0, XCell::num("1"));
             l.rel_decl = xlsxw::RelDecl::Split;
+        }
+        // container glue: every knob of the relationships part and of the entry names at once
+        "container-all" => {
+            let mut s2 = XlsxSheet::new("Second & <last>");
+            s2.state = xlsxw::SheetState::Hidden;
+            s2.set(1, 1, XCell::shared("two"));
+            sh.set(0, 0, XCell::num("1"));
+            book.sheets.push(sh.clone());
+            sh = s2;
+            l.prefix = "x".into();
+            l.rel_prefix = "rel".into();
+            l.rel_decl = xlsxw::RelDecl::Sheets;
+            l.target = xlsxw::TargetStyle::AbsoluteXl;
+            l.part_case = xlsxw::PartCase::Upper;
+            l.pct_rels_noise = 100;
+            l.seed = 5;
         }
         // the structure around the format table is not the format table
         "styles-noise" => {
@@ -1223,7 +1329,7 @@ fn corpus_case(name: &str) -> Option<(XlsxBook, Layout)> {
 
 const CORPUS: &[&str] = &[
     "d20-empty-si", "d21-prefixed-rich", "d21-prefixed-rich-inline", "d22-prefixed-workbookpr", "d23-rel-prefix", "implicit-refs", "corners", "blank-only",
-    "upper-parts", "xf-without-numfmtid", "styles-noise", "row-style-date", "rel-decl-sheets", "rel-decl-sheet", "rel-decl-split", "raw:row-cursor-overflow", "raw:col-cursor-overflow", "raw:sst-index-out-of-range", "raw:reversed-dimension", "raw:overlong-ref",
+    "upper-parts", "xf-without-numfmtid", "styles-noise", "row-style-date", "rel-decl-sheets", "rel-decl-sheet", "rel-decl-split", "rel-prefix-named-id", "container-all", "raw:row-cursor-overflow", "raw:col-cursor-overflow", "raw:sst-index-out-of-range", "raw:reversed-dimension", "raw:overlong-ref",
 ];
 
 /// hand-written worksheet parts (events) for the malformed-input regressions
@@ -1296,9 +1402,14 @@ fn run_corpus(name: &str, rep: &mut Report, drv: &mut Driver) {
         return;
     };
     let built = book.build(&l);
-    let fails = check_file(&built.bytes, &book, &built.sheet_events, &built.sst_events, &built.strings, drv, Some(rep));
+    let mut fails = check_file(&built.bytes, &book, &built.sheet_events, &built.sst_events, &built.strings, drv, Some(rep));
+    fails.extend(container_stage(&built, &book, drv));
     rep.case(&format!("corpus {name}"), true);
-    for f in fails {
+    for mut f in fails {
+        if name == "rel-prefix-named-id" {
+            // known finding C01-k1: signature kept apart from other open failures
+            f.sig = format!("xmlns-id-prefix:{}", f.sig);
+        }
         let parts: Vec<String> = built.parts.iter().filter(|p| p.0.to_lowercase().starts_with("xl/")).map(|p| format!("{}: {}", p.0, String::from_utf8_lossy(&p.1).replace('\n', ""))).collect();
         rep.fail(f.kind, &f.sig, &format!("corpus {name}"), &format!("{} || {}", f.imp, parts.join(" ## ")), &f.model, &f.expect);
     }
